@@ -32,6 +32,7 @@ func init() {
 
 func checkC18(c *Ctx) {
 	p := c.P
+	checkTableLookups(c, "R6", "GamePlayerIndex")
 	checkNoKnownNilErrorReturn(c, "R3", func(f *ssa.Function) bool { return inPkg(p, f, "/actor") }, 5)
 	ri := p.Iface("/actor", "Runner")
 	if ri == nil {
